@@ -127,6 +127,9 @@ def evaluate(ck, recs):
     if rg is not None:
         for r, code in zip(gen, rg):
             ck.count()
+            for e in r["evs"]:
+                if e.get("panic"):  # never swallowed, whatever the model expects for this event
+                    ck.fail_case("c15:gen:panic", "forge() panicked: %s on %s" % (e["panic"], json.dumps(r)[:800]), r)
             forged = [e for e in r["evs"] if e["op"] == "forge" and e["forged"]]
             if len(forged) >= 2:
                 ck.nontrivial(("gen", tuple(r["t0"]), tuple((e["op"], tuple(e.get("t", [])), e.get("lost", False), e.get("drop", False), e.get("who", 0), e.get("abort", False)) for e in r["evs"])))
@@ -151,9 +154,14 @@ def evaluate(ck, recs):
         for i in range(len(r["forged"])):
             lim = r.get("limit") or 15360
             get = lambda k, d: (r.get(k) or [])[i] if i < len(r.get(k) or []) else d
-            rounds.append((r, i, "(%s, %s, %s, %s, %d, %d, %d)" % (cbool(r["forged"][i]), cbool(r["accepted"][i]), cbool(r["tipis"][i]),
-                                                                  cbool(bool(r.get("panic"))), get("payload", 0), lim, get("badin", 0) + get("invalidin", 0))))
-    ra = ck.coq_eval(IMPORTS, "bool * bool * bool * bool * N * N * N", "check_accept", [t for _, _, t in rounds], shard=200, tag="acc")
+            fl = (r.get("fields") or [])
+            fields_ok = i < len(fl) and all(fl[i].values())
+            hdr = get("hdr", [0, 0, 0])
+            rounds.append((r, i, "(%s, %s, %s, %s, %d, %d, %d, %s, %d, %d, %s, (%d, %d, %d))" % (
+                cbool(r["forged"][i]), cbool(r["accepted"][i]), cbool(r["tipis"][i]), cbool(bool(r.get("panic"))), get("payload", 0), lim,
+                get("badin", 0) + get("invalidin", 0), cbool(fields_ok), get("tiph", 0), get("nodemhp", 0), ogi(get("disk", None)),
+                hdr[0], hdr[1], hdr[2])))
+    ra = ck.coq_eval(IMPORTS, "bool * bool * bool * bool * N * N * N * bool * N * N * option geninfo * (N * N * N)", "check_accept", [t for _, _, t in rounds], shard=200, tag="acc")
     if ra is not None:
         for (r, i, _), code in zip(rounds, ra):
             ck.count()
@@ -163,8 +171,10 @@ def evaluate(ck, recs):
             if code != 0:
                 f = dict(kind="input", key="c15:acc:spec",
                          what="block generated by forge() was not accepted by the same node's Executer, or exceeds the size limit, or "
-                              "contains a transaction that failed verification: " + json.dumps(r)[:900], case=r)
-                f["spec_violated"] = True
+                              "contains a transaction that failed verification, or a sealed field differs from the independently "
+                              "recomputed value (%s): " % [k for fl in (r.get("fields") or []) for k, v in fl.items() if not v]
+                              + json.dumps(r)[:900], case=r)
+                f["spec_violated"] = code >= 2
                 f["theorem_or_correspondence"] = "Corr.C15.check_accept: generated block vs consensus.Executer.process"
                 ck.failures.append(f)
 
